@@ -99,6 +99,13 @@ var c11shapes = []c11shape{
 		g.Wrap(g.Split("parallelGateway", "parallelGateway", "", []eng.Frag{a, b}, nil, -1))
 		return nil
 	}},
+	// the same with a MESSAGE: a message handed to the instance reaches every catch event listening for it, like a signal
+	{name: "par2samemsg", par: true, evs: []c11ev{msgB, sigZ, sigB}, build: func(g *eng.Graph) map[string]int {
+		a := g.Seq(c11task(g, "TA"), c11catch(g, "C1", msgB), c11task(g, "UA"))
+		b := g.Seq(c11task(g, "TB"), c11catch(g, "C2", msgB), c11task(g, "UB"))
+		g.Wrap(g.Split("parallelGateway", "parallelGateway", "", []eng.Frag{a, b}, nil, -1))
+		return nil
+	}},
 	{name: "par3", par: true, evs: []c11ev{sigA, msgB, sigC, sigZ}, build: func(g *eng.Graph) map[string]int {
 		a := g.Seq(c11task(g, "TA"), c11catch(g, "C1", sigA), c11task(g, "UA"))
 		b := g.Seq(c11task(g, "TB"), c11catch(g, "C2", msgB), c11task(g, "UB"))
